@@ -185,7 +185,20 @@ def sqrt_round(t, p, rnd):
 
 
 def cmp_exact(s, t):
-    """-1,0,1 comparing finite raws exactly"""
+    """-1,0,1 comparing finite raws exactly (safe for astronomically distant exponents)"""
+    if s[1] and t[1]:
+        if s[0] != t[0]:
+            return -1 if s[0] else 1
+        a, b = s[2] + s[3], t[2] + t[3]
+        if a != b:
+            r = 1 if a > b else -1
+            return -r if s[0] else r
+    elif s[1] == 0 and t[1] == 0:
+        return 0
+    elif s[1] == 0:
+        return 1 if t[0] else -1
+    else:
+        return -1 if s[0] else 1
     ms, es = to_man_exp(s)
     mt, et = to_man_exp(t)
     e = min(es, et)
